@@ -7,7 +7,7 @@ CONSTANTS
   Vals = {1}
   Args = {1}
   ObjTraits = {"Ra", "Rb", "Ma", "Ob", "Kid", "Clone"}
-  Ops = {"EnvNew", "EnvDrop", "EnvRelease", "NewOwned", "NewBorrowed", "Call", "CastBorrow", "CastMove", "Upcast", "Clone", "KidOwned", "KidBorrowed", "Consume", "ConsumeEnd", "Drop"}
+  Ops = {"EnvNew", "EnvDrop", "EnvRelease", "NewOwned", "NewBorrowed", "Call", "CastBorrow", "CastMove", "Upcast", "Clone", "KidOwned", "KidBorrowed", "KidView", "Consume", "ConsumeEnd", "Drop"}
   PTs = {3}
 SPECIFICATION Spec
 VIEW View
